@@ -528,6 +528,26 @@ def _mutated(B, e):
     b = _hirq.root_local(_hirq.peel_refs(e)) if e['k'] != 'Lit' else None
     return b is not None and bool(B.assigns.get(b))
 
+def _stored_only_here(B, l, n):
+    """`x += c` / `x -= c` (the node n) on a local x - a `mut` parameter, a `let mut` - whose only store in the whole body is this
+    very statement, which stands outside every loop and closure and is therefore executed at most once per call, with x never
+    borrowed mutably: when it is evaluated x still holds the value every earlier guard tested, so a comparison that holds at the
+    operation (known_comparisons: enclosing branches and earlier early exits, all evaluated before it) speaks about the operand."""
+    l = _hirq.peel_refs(l)
+    if n['k'] != 'AssignOp' or l['k'] != 'Path' or l.get('res') != 'local':
+        return False
+    b = l['bind']
+    if [id(x) for x in B.assigns.get(b, [])] != [id(n)]:
+        return False
+    if any(a['k'] in ('Loop', 'While', 'For', 'Closure') for a, _role in B.context(n)):
+        return False
+    for x in B.nodes:
+        if x['k'] == 'AddrOf' and x.get('mut') and _hirq.root_local(_hirq.peel_refs(x['e'])) == b:
+            return False
+        if str(x.get('adj_ty') or '').startswith('&mut') and x['k'] in ('Path', 'Field', 'Index') and _hirq.root_local(x) == b:
+            return False
+    return True
+
 def guarded_arith(facts, body_path, src_sp, kind):
     """D2: an Overflow(Sub)/Overflow(Add) assert on `a - b` / `a + c` is discharged when a comparison that holds
     at the operation excludes the overflow.  Returns a reason string or None."""
@@ -543,7 +563,7 @@ def guarded_arith(facts, body_path, src_sp, kind):
     if op not in ('Add', 'Sub'):
         return None
     l, r = n['l'], n['r']
-    if _mutated(B, l) or _mutated(B, r):
+    if _mutated(B, r) or (_mutated(B, l) and not _stored_only_here(B, l, n)):
         return None
     facts_here = known_comparisons(B, n)
     def holds(a, rel, b):
@@ -567,7 +587,7 @@ def guarded_arith(facts, body_path, src_sp, kind):
             return 'guarded: a comparison that holds at the subtraction gives minuend >= subtrahend'
     if op == 'Add' and kind == 'Overflow(Add)':
         c = _hirq.const_eval(facts, r)
-        ty = _hirq.strip_refs(n.get('ty') or '')
+        ty = _hirq.strip_refs((n['l'] if n['k'] == 'AssignOp' else n).get('ty') or '')      # (`x += c` itself has type (): computed in x's type)
         mx = INT_MAX.get(ty)
         if isinstance(c, int) and mx is not None and c >= 0:
             bound = {'k': 'Lit', 'v': mx - c}
